@@ -462,13 +462,16 @@ func isControlEvent(e PDU) bool {
 		}
 		// Membership events are only control events if the "membership" key in the
 		// content is "leave" or "ban" so we need to extract the content.
-		var content MemberContent
-		if err := unmarshalExact(e.Content(), &content); err != nil {
+		// Only the "membership" key matters: the other keys of a member event
+		// are optional and a value of an unexpected type in one of them (say a
+		// numeric "reason") does not stop the event from being a ban or kick.
+		membership, err := e.Membership()
+		if err != nil {
 			break
 		}
 		// If the "membership" key is set and is set to either "leave" or "ban" then
 		// the event is a control event.
-		if content.Membership == spec.Leave || content.Membership == spec.Ban {
+		if membership == spec.Leave || membership == spec.Ban {
 			return true
 		}
 	default:
